@@ -1,4 +1,6 @@
+import PintModel.Model.Flight
 namespace Driver.C14
+open Pint.Flight
 
 /-- decide the server-log predicates: peak in flight, any key twice in flight, any key sent again after a success -/
 structure Acc where
@@ -28,6 +30,51 @@ def flightlog (args : List String) : String :=
   | [log] =>
     let a := (log.splitOn " ").foldl stepEv {}
     s!"peak={a.peak} overlap={a.overlap} resent={a.resent}"
+  | _ => "bad-op"
+
+
+def actOf (t : String) : Option Act :=
+  match t.splitOn ":" with
+  | ["acquire", lk, k] => do pure (.acquire (← lk.toNat?) (← k.toNat?))
+  | ["enqueue", lk] => do pure (.enqueue (← lk.toNat?))
+  | ["take", lk] => do pure (.take (← lk.toNat?))
+  | ["hit", lk] => do pure (.hit (← lk.toNat?))
+  | ["miss", lk] => do pure (.miss (← lk.toNat?))
+  | ["unsupported", lk] => do pure (.unsupported (← lk.toNat?))
+  | ["send", lk] => do pure (.send (← lk.toNat?))
+  | ["respok", lk, a] => do pure (.respOk (← lk.toNat?) (← a.toNat?))
+  | ["resperr", lk] => do pure (.respErr (← lk.toNat?))
+  | ["set", lk] => do pure (.cacheSet (← lk.toNat?))
+  | ["gc", k] => do pure (.gc (← k.toNat?))
+  | ["release", lk] => do pure (.release (← lk.toNat?))
+  | _ => none
+
+/-- run the model on a trace; the first action the model does not allow is reported -/
+def runTrace (W : Nat) (lockOf : Nat → Nat) : St → Nat → List String → String
+  | s, _, [] => s!"accepted peak-ok={decide ((inflightKeys s).length ≤ W)} holders-left={s.holders.length}"
+  | s, i, t :: ts =>
+    match actOf t with
+    | none => s!"bad-action {i} {t}"
+    | some a =>
+      if enabled W lockOf s a then
+        if (inflightKeys (apply s a)).length ≤ W && (inflightKeys (apply s a)).eraseDups.length == (inflightKeys (apply s a)).length
+        then runTrace W lockOf (apply s a) (i + 1) ts
+        else s!"invariant-broken {i} {t}"
+      else s!"rejected {i} {t}"
+
+/-- op: flightrun W key=lk,key=lk,... act act act ... -/
+def flightrun (args : List String) : String :=
+  match args with
+  | [w, tab, acts] =>
+    match w.toNat? with
+    | none => "bad-op"
+    | some W =>
+      let pairs : List (Nat × Nat) := (tab.splitOn ",").filterMap fun p =>
+        match p.splitOn "=" with
+        | [k, l] => do pure ((← k.toNat?), (← l.toNat?))
+        | _ => none
+      let lockOf := fun k => ((pairs.find? fun p => p.1 == k).map (·.2)).getD 1000000
+      runTrace W lockOf init 0 (acts.splitOn " " |>.filter (· != ""))
   | _ => "bad-op"
 
 end Driver.C14
